@@ -10,10 +10,11 @@ import Corankco.Driver.Exact
 import Corankco.Driver.C14
 import Corankco.Driver.C16
 import Corankco.Driver.C18
+import Corankco.Driver.C15
 open Corankco
 
 def allOps : List (String × (J → Option J)) :=
-  Driver.c01Ops ++ Driver.c02Ops ++ Driver.c19Ops ++ Driver.c20Ops ++ Driver.algosOps ++ Driver.bioOps ++ Driver.partOps ++ Driver.exactOps ++ Driver.c14Ops ++ Driver.c16Ops ++ Driver.c18Ops
+  Driver.c01Ops ++ Driver.c02Ops ++ Driver.c19Ops ++ Driver.c20Ops ++ Driver.algosOps ++ Driver.bioOps ++ Driver.partOps ++ Driver.exactOps ++ Driver.c14Ops ++ Driver.c16Ops ++ Driver.c18Ops ++ Driver.c15Ops
 
 def handle (line : String) : String :=
   let line := line.trimAscii.toString
